@@ -35,7 +35,7 @@ def cases(ctx):
         if rng.random() < 0.3:
             fcfg["pp"] = (fcfg["pp"] or []) + [ipgen.rand_net4(rng, 32)]
         yield {"kind": "dump", "fcfg": fcfg, "seed": rng.getrandbits(32), "nfiles": rng.randint(1, 8),
-               "cli": rng.random() < ctx.pick(0.08, 0.05)}
+               "cli": rng.random() < ctx.pick(0.08, 0.05), "bad_files": rng.choice([0, 0, 1, 2])}
 
 
 def read_pairs(segs, out_line):
@@ -80,6 +80,13 @@ def check_case(ctx, case):
         for i, lns in enumerate(files):
             with open(os.path.join(src, "f%d.cfg" % i), "w", encoding="utf-8") as fh:
                 fh.write("".join(L.text_of(s) + "\n" for s in lns))
+        if case.get("bad_files"):
+            # files that cannot be processed, somewhere in the middle of the run: the map must still list
+            # everything that was replaced in the files that were written
+            for k in range(case["bad_files"]):
+                with open(os.path.join(src, "f%d_bad.cfg" % rng.randrange(len(files))), "wb") as fh:
+                    fh.write(b"\xff\xfe\x80 1.2.3.4 not text\n")
+            ctx.count("runs_with_failing_files")
         if use_cli:
             argv = ["-a", "-i", src, "-o", dst, "-d", dump, "--preserve-host-bits", str(fcfg["B4"])] + c02.cli_ip_args(fcfg)
             p = c02.run_cli(argv, rng.randint(1, 9999))
